@@ -213,6 +213,31 @@ def run(chk):
         all_abs += abs_rows(cases, res, label)
         chk.sample({"orderer": which, "graph": {"deps": cases[5]["deps"], "items": cases[5]["items"]}, "code": [res[5]["outcome"], res[5].get("order")]})
 
+    # ---- placement order of relative placements (the orderer embedded in the placer): the multi-instance programs of
+    #      MC_Placer (chains, trees, cycles in every listing order), instances handed over through `instances`, through the
+    #      general `places` list next to Port placeables, and mixed; the order in which the placer placed them is the ordering
+    pdir = os.path.join(vlib.SPECS, "tetris")
+    pcfg = os.path.join(W, "placer_multi.cfg")
+    open(pcfg, "w").write('SPECIFICATION Spec\nCONSTANTS Scope = "multi"  NRand = 0\nINVARIANTS Emit\nCHECK_DEADLOCK FALSE\n')
+    pr = tlc.check(os.path.join(pdir, "MC_Placer.tla"), pcfg, timeout=3600, mem="8g")
+    chk.add_tlc("MC_Placer scope=multi (programs for the placement orderer)", pr)
+    chk.tlc_must_pass("MC_Placer multi", pr)
+    pcases = []
+    for c in pr.cases:
+        for via in (0, 1, 2):
+            d = dict(c); d["via_places"] = via; d["id"] = len(pcases)
+            pcases.append(d)
+    pres = vlib.harness("placer", pcases, W, tag="placeorder", timeout_ms=20000)
+    for c, q in zip(pcases, pres):
+        chk.cov["evaluations"] += 1
+        names = [i["name"] for i in c["insts"]]
+        num = {n: k + 1 for k, n in enumerate(names)}
+        deps = [[num[i["place"]["to"]]] if i["place"]["k"] == "rel" else [] for i in c["insts"]]
+        oc = q.get("outcome")
+        order = [num[p["name"]] for p in q.get("placed", []) if p["name"] in num] if oc == "ok" else []
+        all_abs.append({"id": f"placer+places{c['via_places']}:{c['id']}", "deps": deps, "items": list(range(1, len(names) + 1)),
+                        "status": oc if oc in ("ok", "err") else oc, "order": order, "wit": {"k": "search"}})
+
     # ---- property verdicts by TLC (Trace_DepOrderAbs)
     tf = os.path.join(W, "abs_trace.ndjson")
     write_ndjson(tf, all_abs)
